@@ -207,6 +207,17 @@ class GridBase:
     def _cmin(self):
         return objarr([a for a, _ in self.axes_bounds])
 
+    def contains_point(self, points, *, coords="cartesian"):
+        # pde GridBase.contains_point: np.all((cell >= 0) & (cell <= shape), axis=-1), both ends inclusive
+        cells = objarr(self.transform(points, source=coords, target="cell"))
+        flat = cells.reshape(-1, cells.shape[-1])
+        out = _np.empty(flat.shape[0], dtype=object)
+        for i in range(flat.shape[0]):
+            out[i] = core.And(*[core.And(flat[i, k] >= 0, flat[i, k] <= self.shape[k]) for k in range(flat.shape[1])])
+        if cells.ndim == 1:
+            return out[0]
+        return out.reshape(cells.shape[:-1])
+
     # -- metric
     def _difference_vector(self, p1, p2, *, coords, periodic, axes_bounds):
         x1 = self.transform(p1, source=coords, target="cartesian")
